@@ -1,6 +1,7 @@
 pub mod faults;
 pub mod sgen;
 pub mod harness;
+pub mod irx;
 pub mod mcrun;
 pub mod props;
 pub mod refsem;
@@ -19,6 +20,7 @@ fn property(id: &str) -> Option<Box<dyn Property>> {
         "C03" => Some(Box::new(props::c03::C03)),
         "C04" => Some(Box::new(props::c04::C04)),
         "C10" => Some(Box::new(props::c10::C10)),
+        "C14" => Some(Box::new(props::c14::C14)),
         "C15" => Some(Box::new(props::c15::C15)),
         _ => None,
     }
